@@ -125,6 +125,113 @@ def orbit_length(repo, rep):
         rep.inconcl("R-CLOSED-FORM", site, "accuracy %.2e / %.2e between the proof and refutation bounds" % (e1, e2))
 
 
+def node_passage_elliptic(repo, rep):
+    """D4 (also used by C13, whose planetary passage_nodes all go through this routine): E from the true anomaly of the node,
+    M = E - e sin E, time and radius - for both values of the node flag"""
+    rep.rule("R-E4-ID", "algebraic identity / term match")
+    E_, A_ = T.sym("E_"), T.sym("A")
+    q = "passage_nodes_elliptic"
+    rep.fn(MOD, q)
+    fn = repo.func(MOD, q)
+    n_ = [a.arg for a in fn.args.args]
+    site = MOD + "." + q
+    verdicts = []
+    for asc, base in ((True, 360), (False, 180)):
+        # the node flag is bound to each of its two values (partial evaluation): v = 360 - omega / 180 - omega
+        t = ret_term(repo, MOD, q, arg_terms={n_[0]: ("angle", T.sym("OM")), n_[1]: T.sym("E_"), n_[2]: T.sym("A"), n_[3]: ("epoch", T.sym("T0")),
+                                              n_[4]: ("bool", asc)})
+        if t[0] != "tuple" or len(t) != 3 or t[1][0] != "epoch":
+            verdicts.append("shape")
+            continue
+        vdeg = T.sub(T.num(base), T.sym("OM"))
+        EE = T.mul(T.num(2), T.call("atan", T.mul(T.call("sqrt", T.div(T.sub(T.ONE, E_), T.add(T.ONE, E_))),
+                                                 T.call("tan", T.mul(T.num(Fraction(1, 2)), vdeg, D2R)))))
+        a3 = Algebra(atomize=True)
+        try:
+            ok_r = a3.equal(t[2], T.mul(A_, T.sub(T.ONE, T.mul(E_, T.call("cos", EE)))))
+            M = T.sub(EE, T.mul(E_, T.call("sin", EE)))
+            n = T.div(T.num(Fraction("0.9856076686")), T.mul(A_, T.call("sqrt", A_)))
+            want_t = T.add(T.sym("T0"), T.div(T.mul(M, T.power(D2R, T.num(-1))), n))
+            ok_t = a3.equal(t[1][1], want_t)
+        except Exception:
+            ok_r = ok_t = False
+        verdicts.append("ok" if (ok_r and ok_t) else "r ok=%s, time ok=%s" % (ok_r, ok_t))
+    if verdicts == ["ok", "ok"]:
+        rep.ok("R-E4-ID", site, "E = 2*atan(sqrt((1-e)/(1+e))*tan(v/2)) with v = 360-omega / 180-omega; M = E - e sin E; time = t + degrees(M)/(0.9856076686/a^1.5); r = a(1 - e cos E)", obligation=True)
+    elif "shape" in verdicts:
+        rep.violation("R-E4-ID", site, "shape", "does not return (Epoch, r)", obligation=True)
+    else:
+        rep.violation("R-E4-ID", site, "node-passage", "elliptic node passage differs from the two-body relations (ascending: %s; descending: %s)" % tuple(verdicts), obligation=True)
+
+
+def domain_total(repo, rep):
+    """R-DOMAIN: the closed-form routines refuse nothing inside the domain the property quantifies over (eccentricity in
+    [0, 0.999999] - the circular orbit included - and a positive semi-major axis).  The refusal conditions compare the
+    arguments with constants only, so they are decided on every class: each constant they mention, its two neighbours, the
+    ends and the middle of the domain."""
+    import itertools
+    from ..rules import outcomes, eval_exact, NotEvaluable
+    rep.rule("R-DOMAIN", "no refusal (raise) is reachable for arguments inside the property's domain: decided on every class of the "
+                         "arguments against the constants of the refusal conditions")
+    F = Fraction
+    dom = {"e": (F(0), F(999999, 1000000)), "a": (F(1, 100), F(100))}
+    n = 0
+    for q in ("velocity_perihelion", "velocity_aphelion", "length_orbit"):
+        fn = repo.func(MOD, q)
+        nm = [a_.arg for a_ in fn.args.args]
+        if nm != ["e", "a"]:
+            rep.inconcl("R-DOMAIN", MOD + "." + q, "signature is not (e, a)")
+            continue
+        syms = {x: T.sym("NUM_" + x.upper()) for x in nm}
+        outs = outcomes(repo, MOD, q, arg_terms=dict(syms))
+        raises_ = [o for o in outs if o.kind == "raise"]
+        consts = {x: set() for x in nm}
+        odd = None
+        for o in raises_:
+            for c in T.walk(o.cond):
+                if c[0] == "cmp":
+                    for x in nm:
+                        if c[2] == syms[x] and c[3][0] == "num":
+                            consts[x].add(F(c[3][1]))
+                        elif c[3] == syms[x] and c[2][0] == "num":
+                            consts[x].add(F(c[2][1]))
+                        elif syms[x] in (c[2], c[3]) and c[2][0] != "num" and c[3][0] != "num":
+                            odd = T.show(c)[:60]
+        if odd:
+            rep.inconcl("R-DOMAIN", MOD + "." + q, "a refusal condition compares an argument with something other than a constant: " + odd)
+            continue
+        reps = {}
+        for x in nm:
+            lo, hi = dom[x]
+            cand = {lo, hi, (lo + hi) / 2}
+            for c in consts[x]:
+                cand |= {c, c - F(1, 10 ** 9), c + F(1, 10 ** 9)}
+            reps[x] = sorted(v for v in cand if lo <= v <= hi)
+        bad = None
+        for vals in itertools.product(*[reps[x] for x in nm]):
+            env = {syms[x]: v for x, v in zip(nm, vals)}
+            n += 1
+            hit = False
+            for o in raises_:
+                try:
+                    hit = eval_exact(o.cond, env)
+                except NotEvaluable as e_:
+                    rep.inconcl("R-DOMAIN", MOD + "." + q, "refusal condition not evaluable: %s" % e_)
+                    hit = None
+                    break
+                if hit:
+                    bad = (dict(zip(nm, (float(v) for v in vals))), T.show(o.value)[:40] if o.value else "exception")
+                    break
+            if bad or hit is None:
+                break
+        if bad:
+            rep.violation("R-DOMAIN", MOD + "." + q, "refuses-in-domain", "%s raises %s for %s, inside the domain of the property (e in [0, 0.999999] incl. the circular orbit, a > 0)"
+                          % (q, bad[1], bad[0]), obligation=True)
+        else:
+            rep.ok("R-DOMAIN", MOD + "." + q, "no refusal reachable for e in [0, 0.999999], a in (0, 100] (%d refusal paths examined)" % len(raises_), obligation=True)
+    rep.floor("argument classes examined for refusals inside the domain", n, 9)
+
+
 def run(repo, rep, tier):
     rep.decided = ["D1 true-anomaly relation and its reciprocal", "D2 vis-viva identities", "D3 k == (1 + cos i)/2",
                    "D4 node-passage relations (elliptic and parabolic)", "D5 sign bookkeeping of the anomaly reduction; radians"]
@@ -222,39 +329,9 @@ def run(repo, rep, tier):
         rep.ok("R-E4-ID", MOD + ".illuminated_fraction", "k == (1 + cos i)/2 with cos i the acos argument of phase_angle", obligation=True)
     else:
         rep.violation("R-E4-ID", MOD + ".illuminated_fraction", "phase-fraction", "illuminated fraction is not (1 + cos i)/2 of the phase angle", obligation=True)
+    domain_total(repo, rep)
     # ---- D4 node passages
-    q = "passage_nodes_elliptic"
-    rep.fn(MOD, q)
-    fn = repo.func(MOD, q)
-    n_ = [a.arg for a in fn.args.args]
-    site = MOD + "." + q
-    verdicts = []
-    for asc, base in ((True, 360), (False, 180)):
-        # the node flag is bound to each of its two values (partial evaluation): v = 360 - omega / 180 - omega
-        t = ret_term(repo, MOD, q, arg_terms={n_[0]: ("angle", T.sym("OM")), n_[1]: T.sym("E_"), n_[2]: T.sym("A"), n_[3]: ("epoch", T.sym("T0")),
-                                              n_[4]: ("bool", asc)})
-        if t[0] != "tuple" or len(t) != 3 or t[1][0] != "epoch":
-            verdicts.append("shape")
-            continue
-        vdeg = T.sub(T.num(base), T.sym("OM"))
-        EE = T.mul(T.num(2), T.call("atan", T.mul(T.call("sqrt", T.div(T.sub(T.ONE, E_), T.add(T.ONE, E_))),
-                                                 T.call("tan", T.mul(T.num(Fraction(1, 2)), vdeg, D2R)))))
-        a3 = Algebra(atomize=True)
-        try:
-            ok_r = a3.equal(t[2], T.mul(A_, T.sub(T.ONE, T.mul(E_, T.call("cos", EE)))))
-            M = T.sub(EE, T.mul(E_, T.call("sin", EE)))
-            n = T.div(T.num(Fraction("0.9856076686")), T.mul(A_, T.call("sqrt", A_)))
-            want_t = T.add(T.sym("T0"), T.div(T.mul(M, T.power(D2R, T.num(-1))), n))
-            ok_t = a3.equal(t[1][1], want_t)
-        except Exception:
-            ok_r = ok_t = False
-        verdicts.append("ok" if (ok_r and ok_t) else "r ok=%s, time ok=%s" % (ok_r, ok_t))
-    if verdicts == ["ok", "ok"]:
-        rep.ok("R-E4-ID", site, "E = 2*atan(sqrt((1-e)/(1+e))*tan(v/2)) with v = 360-omega / 180-omega; M = E - e sin E; time = t + degrees(M)/(0.9856076686/a^1.5); r = a(1 - e cos E)", obligation=True)
-    elif "shape" in verdicts:
-        rep.violation("R-E4-ID", site, "shape", "does not return (Epoch, r)", obligation=True)
-    else:
-        rep.violation("R-E4-ID", site, "node-passage", "elliptic node passage differs from the two-body relations (ascending: %s; descending: %s)" % tuple(verdicts), obligation=True)
+    node_passage_elliptic(repo, rep)
     q = "passage_nodes_parabolic"
     rep.fn(MOD, q)
     fn = repo.func(MOD, q)
